@@ -518,7 +518,8 @@ func setListValue(list *List, value Object, index int64) Object {
 		return UNDEFINED
 	}
 
-	list.Value = append(list.Value, value)
+	// past the end: the value is appended once the whole update is applied
+	list.Append(index, value)
 
 	return UNDEFINED
 }
@@ -1148,6 +1149,10 @@ func evalAssignIndex(n Expression, i []int, val Object, env *Environment) Object
 			errObj := pos.Set(obj, val)
 			if isError(errObj) {
 				return errObj
+			}
+
+			if _, ok := obj.(*List); ok {
+				env.MarkToCompact(obj)
 			}
 
 			break
